@@ -23,6 +23,7 @@ import (
 	"verifh/internal/ev"
 	"verifh/internal/gen"
 	"verifh/internal/hgen"
+	"verifh/internal/inject"
 	"verifh/internal/l1"
 	"verifh/internal/l2"
 	"verifh/internal/model"
@@ -38,13 +39,15 @@ type Case struct {
 	Config string       `json:"config"`
 	H      hgen.History `json:"h"`
 	Batch  []int        `json:"batch,omitempty"`
+	// Config "inject" (inject_test.go): a second actor's operation starts inside a Flush
+	Inject *inject.Spec `json:"inject,omitempty"`
 }
 
 var configs = []string{"rib-hook-then-nis", "rib-nis-then-hook", "server-opts", "server-runtime-nis"}
 
 func setup() {
 	c := ev.C()
-	c.Rule = "C01-style histories (rapid, model-aimed, with held-operation resolution and single-NI/all-NI flushes) x 4 configuration orders (hook registered before / after the network instances exist, via rib.SetPostChangeHook+AddNetworkInstance, server.WithPostChangeRIBHook+WithVRFs, Server.AddNetworkInstance at runtime). Oracle: a consumer folding the post-change notifications (ADD -> put, DELETE with non-nil entry -> remove) must equal RIBContents in every NI after every step; every resolved-entry notification (count == model-predicted, awaited by goroutine state) must contain the key for ADD, lack it for DELETE and be unchanged at the end of the history. Non-trivial = history changes an NI that was created after hook registration, or contains a flush that removed entries, or a held-operation resolution; distinct by FNV-64 of the case JSON."
+	c.Rule = "C01-style histories (rapid, model-aimed, with held-operation resolution and single-NI/all-NI flushes) x 4 configuration orders (hook registered before / after the network instances exist, via rib.SetPostChangeHook+AddNetworkInstance, server.WithPostChangeRIBHook+WithVRFs, Server.AddNetworkInstance at runtime). Oracle: a consumer folding the post-change notifications (ADD -> put, DELETE with non-nil entry -> remove) must equal RIBContents in every NI after every step; every resolved-entry notification (count == model-predicted, awaited by goroutine state) must contain the key for ADD, lack it for DELETE and be unchanged at the end of the history. Plus (rib API) Flushes stopped at a drawn removal notification where a second actor's operation (mostly re-programming a key that is being flushed) is started and the Flush resumes once it returned or is parked on a lock: when both have finished the fold of all notifications must equal the RIB contents. Non-trivial = history changes an NI that was created after hook registration, or contains a flush that removed entries, or a held-operation resolution; distinct by FNV-64 of the case JSON."
 	c.Assumptions = []string{"payloads are schema-valid", "the consumer does not call back into the RIB from the hook"}
 }
 
@@ -217,6 +220,9 @@ func (tk *tracker) check(r *rib.RIB, m *model.RIB, v *ev.Verdict, when string) {
 }
 
 func runCase(c Case) *ev.Verdict {
+	if c.Config == "inject" {
+		return runInject(c)
+	}
 	cons := &consumer{st: map[gen.EntryKey]ygot.ValidatedGoStruct{}}
 	tk := &tracker{cons: cons, touched: map[string]bool{}}
 	var v *ev.Verdict
@@ -364,6 +370,16 @@ func TestCampaign(t *testing.T) {
 			if wild != "" {
 				v.Class("renamed:" + wild)
 			}
+			col.Check(rt, ev.JSON(c), v)
+		})
+	})
+	t.Run("operation-injected-inside-a-flush", func(t *testing.T) {
+		rapid.Check(t, func(rt *rapid.T) {
+			if rapid.IntRange(0, 1).Draw(rt, "run?") != 0 {
+				return
+			}
+			c := drawInject(rt)
+			v := runCase(c)
 			col.Check(rt, ev.JSON(c), v)
 		})
 	})
